@@ -54,10 +54,31 @@ class Part:
     machine: typing.Any = None  # factory(ctx, record) -> RuleBasedStateMachine class; the case is the recorded history
     steps: int = 30  # stateful_step_count
     min_examples: int = 20
-    fuzz_decode: typing.Any = None  # bytes -> case: makes the part an atheris campaign (thorough tier only)
+    # bytes -> case: makes the part an atheris campaign (thorough tier only); the string "hypothesis" means that the bytes are the
+    # choice sequence of `strategy` (see `cover`)
+    fuzz_decode: typing.Any = None
     fuzz_runs: int = 20000  # executions per shard
     fuzz_corpus: typing.Any = None  # callable(ctx) -> list of bytes (seed corpus), may be empty
     fuzz_dict: typing.Sequence[str] = ()
+
+
+def cover(part: "Part", runs: int = 4000) -> "Part":
+    """The coverage-guided twin of a Hypothesis part: same strategy, same check, but the choices of the strategy are made by libFuzzer
+    (atheris) under coverage feedback from the instrumented pydsdl.  Its budget is `runs` executions per shard (times --scale), outside the
+    shares of the Hypothesis parts (weight 0).  Findings are re-run through the plain check by the worker."""
+    return Part("cover-" + part.name, part.strategy, part.check, weight=0, cost=part.cost, fuzz_decode="hypothesis", fuzz_runs=runs)
+
+
+def all_parts(mod: typing.Any, ctx: "Ctx") -> typing.List["Part"]:
+    """The parts of a property module plus, outside the quick tier, the coverage-guided twins it asks for: COVER = {part name: runs}."""
+    parts = list(mod.parts(ctx))
+    if ctx.tier != "quick":
+        by_name = {p.name: p for p in parts}
+        for name, runs in getattr(mod, "COVER", {}).items():
+            if by_name[name].strategy is None:
+                raise HarnessError("COVER names the part %r, which has no strategy" % name)
+            parts.append(cover(by_name[name], runs))
+    return parts
 
 
 @dataclasses.dataclass
